@@ -276,8 +276,13 @@ def precise_diff(
                 d_diff += d1.day
             else:
                 d_diff += days_in_last_month
-        elif d_diff == days_in_month - days_in_last_month:
-            # We have exactly a full month
+        elif (
+            d_diff == days_in_month - days_in_last_month
+            and d1.day == days_in_last_month
+        ):
+            # We have exactly a full month: the start is the last day
+            # of the previous (longer) month and the end is the last day
+            # of this one, so adding the months clamps onto the end.
             # We remove the days difference
             # and add one to the months difference
             d_diff = 0
